@@ -1,0 +1,18 @@
+//go:build verif
+
+package queue
+
+import "github.com/lindb/lindb/pkg/queue/page"
+
+// Verification export for property C05 (round 12). Compiled only with -tags verif.
+
+// VerifC05IndexPage returns the index page OBJECT the queue currently holds (the one
+// persistMetaOfMessage stores index items through) together with q.indexPageIndex. It reads
+// without the lock; the harness calls it only while no append is running.
+func VerifC05IndexPage(q Queue) (held page.MappedPage, indexPageIndex int64, ok bool) {
+	qq, ok := q.(*queue)
+	if !ok {
+		return nil, 0, false
+	}
+	return qq.indexPage, qq.indexPageIndex, true
+}
